@@ -147,6 +147,27 @@ CHECKS = {
         design_ref="DESIGN.md section 8, C11",
         technique="Lean corollary of the pipeline model + real log replay with tampered logs judged by the proved validator",
     ),
+    "C12": dict(
+        category="proof",
+        text=("Frame.frame: a pipeline that reads only names re-initialised at block entry, constants, or names every history leaves "
+              "alike computes the same result after any two histories. Its premise is instantiated on tables that harness/extract.py "
+              "regenerates from /repo with ast on every run (module globals of gasol_optimization.py and ir_block.py: read set of the block "
+              "pipeline, reset set of init_globals and the smt_translate_block prologue, never-written constants) and kernel-decided "
+              "(generated_frame_ok_*); the residue is an explicit allow-list with reasons. Validation: each block processed in a fresh "
+              "process and after 1..50 other blocks, all result fields compared."),
+        design_ref="DESIGN.md section 8, C12",
+        technique="Lean frame theorem instantiated on read/reset tables extracted from the source on every run (translator) + fresh-process vs history runs",
+    ),
+    "C13": dict(
+        category="proof",
+        text=("Determinism lemmas for the order-insensitive consumers of hash-ordered collections (sort_perm_invariant, "
+              "numbering_perm_invariant, foldMax/length/membership under permutation) are proved; validation runs every block and "
+              "synthesized documents under PYTHONHASHSEED 0,1,2,3,random in separate processes and compares specifications "
+              "(identifiers included), greedy ids, emitted blocks, logs and files byte for byte. Partial: the list of iteration "
+              "sites is not extracted from the source."),
+        design_ref="DESIGN.md section 8, C13",
+        technique="Lean permutation-invariance lemmas + cross-process, cross-hash-seed byte comparison of real outputs",
+    ),
 }
 
 NOT_APPLICABLE = [
